@@ -114,3 +114,77 @@ func (c *Ctx) runStorageClassAware(r *Report, rule string) {
 	}
 	r.inst("ptrtype.scaware", n)
 }
+
+// version.bump14 (C02): from SPIR-V 1.4 on, OpEntryPoint must list every global
+// variable the entry point uses; the backend decides that from options.Version
+// when it emits the entry points, after the function bodies. A function body
+// that needs a 1.4 instruction (OpCopyLogical ...) raises the header version;
+// every call that passes a Version constant >= 1.4 to a Version parameter must
+// therefore sit in a function that also assigns the Version field of the
+// options (the wrapper that keeps header and interface rule in step). A bare
+// header bump yields a 1.4 module with a 1.3-style interface list.
+func (c *Ctx) runVersionBump(r *Report, rule string) {
+	n := 0
+	for _, fn := range c.allFuncs() {
+		if fn.Pkg.Rel != "spirv/internal/codegen" {
+			continue
+		}
+		info := fn.Pkg.Info
+		assignsVersionField := false
+		ast.Inspect(fn.Decl.Body, func(m ast.Node) bool {
+			if as, ok := m.(*ast.AssignStmt); ok {
+				for _, l := range as.Lhs {
+					if se, ok := ast.Unparen(l).(*ast.SelectorExpr); ok {
+						if sel := info.Selections[se]; sel != nil && sel.Kind() == types.FieldVal && namedName(sel.Type()) == "Version" {
+							assignsVersionField = true
+						}
+					}
+				}
+			}
+			return true
+		})
+		ord := 0
+		ast.Inspect(fn.Decl.Body, func(m ast.Node) bool {
+			call, ok := m.(*ast.CallExpr)
+			if !ok {
+				return true
+			}
+			f := calleeOf(info, call)
+			if f == nil {
+				return true
+			}
+			sig := f.Type().(*types.Signature)
+			for i, a := range call.Args {
+				if i >= sig.Params().Len() || namedName(sig.Params().At(i).Type()) != "Version" {
+					continue
+				}
+				id, ok := ast.Unparen(a).(*ast.Ident)
+				if !ok {
+					continue
+				}
+				k := info.Uses[id]
+				if k == nil || k.Pkg() == nil || k.Parent() != k.Pkg().Scope() || namedName(k.Type()) != "Version" {
+					continue
+				}
+				// Version1_4 and later: package-level Version values are named Version1_N
+				name := k.Name()
+				if len(name) < 10 || name[:9] != "Version1_" || name[9] < '4' {
+					continue
+				}
+				n++
+				ord++
+				cons := fn.id() + ":" + f.Name() + "(" + name + ")"
+				if ord > 1 {
+					cons += "#" + itoa(ord)
+				}
+				if assignsVersionField {
+					r.ok(rule, cons, c.pos(call.Pos()), "")
+				} else {
+					r.viol(rule, cons, c.pos(call.Pos()), fn.id()+" raises the module's SPIR-V version to "+name+" without updating the options' Version, which decides whether OpEntryPoint lists all used global variables: the module header says 1.4+ but the interface list follows the pre-1.4 rule")
+				}
+			}
+			return true
+		})
+	}
+	r.inst("version.bump14", n)
+}
